@@ -930,6 +930,42 @@ pub fn gen_c18(run: &mut Run, seed: u64, thorough: bool) {
             }
             i.sweep(&holders);
         }
+        // (a) a hub deploy message naming the id of a REGISTERED canonical token is refused; the remote deployment of that
+        //     token afterwards still announces the token's own metadata
+        {
+            let env = i.g.env.clone();
+            let salt_obs = i.op(&format!("its.q_canonical_salt {}", canon.tok()), "q-id");
+            if let Some(salt_hex) = tok_after_ok(&salt_obs, 'x') {
+                let id_obs = i.op(&format!("its.q_token_id {} {}", Addr { contract: false, id: [0u8; 32] }.tok(), salt_hex), "q-id");
+                if let Some(idh) = tok_after_ok(&id_obs, 'x') {
+                    let cid = unhx32(&idh);
+                    let p = deploy_payload(&env, b"ethereum", &cid, b"Impostor", b"IMP", 3, None);
+                    i.deliver(&p, "hub-deploy-onto-registered-canonical-id");
+                    i.op(&format!("its.token_address {}", idh), "q");
+                    i.op(&format!("its.deploy_remote_canonical {} {} {} {} 3 {}", canon.tok(), hx(b"ethereum"), users[1].tok(), i.gas.tok(), users[1].tok()), "remote-canonical-after-impostor-message");
+                }
+            }
+            // (b) the reverse order: the canonical id of a NOT yet registered token is taken by a hub deployment; registering the
+            //     token then fails, and a remote deployment "of that token" announces what is REGISTERED under the id
+            let late = Addr::c(230);
+            i.op(&format!("ctok.new {} {} {} 9", late.tok(), hx(b"Latecomer"), hx(b"LATE")), "env-custom-token");
+            i.tokens.push(late.clone());
+            let salt_obs = i.op(&format!("its.q_canonical_salt {}", late.tok()), "q-id");
+            if let Some(salt_hex) = tok_after_ok(&salt_obs, 'x') {
+                let id_obs = i.op(&format!("its.q_token_id {} {}", Addr { contract: false, id: [0u8; 32] }.tok(), salt_hex), "q-id");
+                if let Some(idh) = tok_after_ok(&id_obs, 'x') {
+                    let cid = unhx32(&idh);
+                    let p = deploy_payload(&env, b"ethereum", &cid, b"Squatter", b"SQT", 4, None);
+                    i.deliver(&p, "hub-deploy-onto-future-canonical-id");
+                    if let Some(a) = i.op(&format!("its.token_address {}", idh), "q").split(' ').nth(1).map(Addr::parse) {
+                        i.tokens.push(a);
+                    }
+                    i.register(&late, "register-canonical-after-squat");
+                    i.op(&format!("its.deploy_remote_canonical {} {} {} {} 3 {}", late.tok(), hx(b"ethereum"), users[1].tok(), i.gas.tok(), users[1].tok()), "remote-canonical-of-squatted-id");
+                }
+            }
+            i.sweep(&holders);
+        }
         let _ = tid_n;
     }
 }
